@@ -213,7 +213,7 @@ def check_c14(tier):
     sweep(V, tier, ['root-auto', 'peer-manual-ser'], 200 if tier == 'quick' else 1700)
     sweep(V, tier, ['root-auto-hist'], 150 if tier == 'quick' else 600, ns=[1, 2, 3, 5, 8, 9, 17, 64, 129, 255] if tier == 'quick' else [1, 2, 3, 4, 5, 6, 7, 8, 9, 16, 17, 31, 33, 64, 65, 127, 128, 129, 200, 254, 255])
     ctor_forms(V)
-    vc.run_specs(V, [S('T1', 1, M_T, O_TALL), S('P5', 1, M_P0, O_P), S('I1', 1, M_T, O_T), S('T2', 1, M_TP, O_TALL), S('P5h', 0, M_P0, O_PALL)], tier, budget=60 if tier == 'quick' else 300)
+    vc.run_specs(V, [S('T1', 1, M_T, O_TALL), S('P5', 1, M_P0, O_P), S('I1', 1, M_T, O_T), S('T2', 1, M_TP, O_TALL), S('P5h', 0, M_P0, O_PALL), S('T1q', 1, M_T, O_T), S('I1q', 1, M_T, O_T), S('I2', 1, M_T, O_T)], tier, budget=60 if tier == 'quick' else 300)
     # keep only what C14 judges: drop serialization predicates reported by the shared harness
     V.violations = [v for v in V.violations if not re.match(r'(save|load|buffer)', v['pred'])]
     return V.finish(rule='one machine per state count N and root flavour; every ordered pair (j,k) of states is driven with immediateChangeTo and the deliveries compared with the expected four callbacks; stateId<T>() checked by static_assert for every state')
@@ -228,7 +228,7 @@ def check_c12(tier):
     V.assumptions = ['buffers handed to load() were produced by save() of the same machine type', 'load() only sees the buffer: (saver state, loader state) pairs are covered as every saver state x canonical buffer and every loader state x every buffer']
     O = O_T | og('MANUAL', 'SERIAL', 'PAYLOAD', 'REPLAY', 'COPY')
     specs = [S('T2s', 2, M_T, O), S('T2a', 2, M_T, O), S('T3s', 1, M_TP, O), S('A2', 1, mf('PHASE_REQ', 'GUARD_CANCEL', 'REPORT', 'PLAN_EDIT', 'PAYLOAD'), og('CORE', 'PLAN', 'REPORT', 'MANUAL', 'SERIAL', 'REPLAY', 'COPY', 'DESTROY', 'PAYLOAD', 'LOG')), S('A1', 0, mf('PHASE_REQ', 'GUARD_CANCEL', 'REPORT', 'PLAN_EDIT', 'PAYLOAD'), og('CORE', 'PLAN', 'REPORT', 'MANUAL', 'SERIAL', 'REPLAY', 'COPY', 'DESTROY', 'PAYLOAD', 'LOG'))]
-    specs += [S('P5h', 1, mf('PHASE_REQ', 'REPORT', 'PLAN_EDIT', 'LIFE_EDIT'), og('CORE', 'PLAN', 'SERIAL')), S('P6m', 1, mf('PHASE_REQ', 'PLAN_EDIT', 'LIFE_EDIT'), og('CORE', 'PLAN', 'SERIAL', 'MANUAL'))]    # callbacks that plan while load() runs
+    specs += [S('T2q', 2, M_T, O), S('T2aq', 1, M_T, O), S('T5q', 1, M_TP, O), S('P5hq', 0, M_P0, O_P | og('SERIAL')), S('P5h', 1, mf('PHASE_REQ', 'REPORT', 'PLAN_EDIT', 'LIFE_EDIT'), og('CORE', 'PLAN', 'SERIAL')), S('P6m', 1, mf('PHASE_REQ', 'PLAN_EDIT', 'LIFE_EDIT'), og('CORE', 'PLAN', 'SERIAL', 'MANUAL'))]    # callbacks that plan while load() runs
     combos = SER_COMBOS[:8] if tier == 'quick' else SER_COMBOS
     for i, c in enumerate(combos):
         name = 'T2x%d' % i
@@ -298,7 +298,7 @@ def check_c16(tier):
     d = 1 if tier == 'quick' else 2
     OL = O_T | og('LOG')
     specs = [S('T1', 2, M_T | mf('COMPOSITE'), og('CORE', 'LOG')), S('GP1', 1, M_P0 | mf('COMPOSITE'), O_P), S('T1', 2 if tier == 'quick' else 3, M_T, OL | og('REPLAY')), S('G1', d, M_T, OL), S('G2', d, M_T, OL), S('GP1', d, M_P0 | mf('GUARD_REQ'), O_P | og('REACT')), S('GP2', 1, M_P0, O_P), S('T2', 1, M_TP, O_TALL),
-             S('GI1', 2, M_T | mf('INJ_DECIDE'), OL), S('GI2', d, M_T | mf('INJ_DECIDE'), OL), S('GI1', 1, M_T | mf('INJ_DECIDE', 'COMPOSITE'), og('CORE', 'LOG')), S('GQ1', 1, M_P0 | mf('PAYLOAD'), O_P | og('PAYLOAD')), S('GQ2', 0, M_P0 | mf('PAYLOAD'), O_P | og('PAYLOAD')), S('G1t', 1, M_T, OL), S('GP1t', 1, M_P0, O_P), S('P5f', 1, M_P0, O_P), S('P5s', 1, M_P0, O_P), S('P5n', 1, M_P0, O_P), S('T1r', 1, M_T, OL), S('T1', 2, mf('PHASE_REQ', 'GUARD_CANCEL', 'LOG_TOGGLE'), og('CORE', 'LOG')), S('G2', 1, mf('PHASE_REQ', 'LOG_TOGGLE'), og('CORE', 'LOG'))]
+             S('GI1', 2, M_T | mf('INJ_DECIDE'), OL), S('GI2', d, M_T | mf('INJ_DECIDE'), OL), S('GI1', 1, M_T | mf('INJ_DECIDE', 'COMPOSITE'), og('CORE', 'LOG')), S('GQ1', 1, M_P0 | mf('PAYLOAD'), O_P | og('PAYLOAD')), S('GQ2', 0, M_P0 | mf('PAYLOAD'), O_P | og('PAYLOAD')), S('G1t', 1, M_T, OL), S('GP1t', 1, M_P0, O_P), S('P5f', 1, M_P0, O_P), S('P5s', 1, M_P0, O_P), S('P5n', 1, M_P0, O_P), S('T1r', 1, M_T, OL), S('T1', 2, mf('PHASE_REQ', 'GUARD_CANCEL', 'LOG_TOGGLE'), og('CORE', 'LOG')), S('T1', 1, M_T, OL, flags=['--copy', '--copy-move']), S('G2', 1, mf('PHASE_REQ', 'LOG_TOGGLE'), og('CORE', 'LOG'))]
     vc.run_specs(V, specs, tier, budget=100 if tier == 'quick' else 600)
     # differential: compiled out / compiled in (attached, detached, attached later) / verbose must be behaviourally identical
     for fam, names, mfv, ogv, nflag in (('plain', ('L0', 'L1', 'L2'), M_T, O_T, '--neutral'), ('bare', ('G0', 'G1', 'G2'), M_T, O_T, '--neutral'), ('plans', ('GP0', 'GP1', 'GP2'), M_P0, og('CORE', 'PLAN', 'REPORT'), '--neutral'),
@@ -349,7 +349,7 @@ def check_c18(tier):
         jobs.append((('seqx_containers.cpp', ['VX_PART=3']), dict(variant=v, extra=['-w']), 'tasklist', ['--what=tasklist', '--workers=%d' % NCPU]))
         jobs.append((('seqx_containers.cpp', ['VX_PART=1', 'VX_CLO=1', 'VX_CHI=40']), dict(variant=v, extra=['-w']), 'bitarray', ['--what=bitarray', '--workers=%d' % NCPU]))
         if v == 'asan-clang': jobs.append((('sweepx_n.cpp', ['VX_NSTATES=250', 'VX_HEAD=1', FEAT['PLANS']]), dict(variant=v, access=False, extra=['-w', '-ftemplate-depth=2048', '-g0']), 'sweep N=250 plans', []))
-        for n in ((1, 2, 255) if tier == 'quick' else (1, 2, 3, 9, 64, 128, 255)):
+        for n in ((1, 2, 128, 255) if tier == 'quick' else (1, 2, 3, 9, 64, 127, 128, 129, 255)):
             if tier == 'quick' and n == 255 and v != 'asan-gcc': continue
             jobs.append((('sweepx_n.cpp', ['VX_NSTATES=%d' % n, 'VX_HEAD=0', 'VX_MANUAL=1', FEAT['SER']]), dict(variant=v, access=False, extra=['-w', '-ftemplate-depth=2048'] + (['-g0'] if n > 100 else [])), 'sweep N=%d' % n, []))
     built = build_many([(j[0], j[1]) for j in jobs])
